@@ -344,32 +344,30 @@ def r7(ctx, facts):
 def r8(ctx, facts):
     """retries of one page may go to every target of the policy's plan: the per-page plan drops nothing but the coordinator that is tried first"""
     r = ctx.rule("R8", "the per-page plan keeps every target of the load-balancing plan except the pre-selected coordinator (a retried page can reach a healthy node)", floor=1)
-    from ..util import closure_family, dj_of
+    from ..util import closure_family, bool_returns, field_slice
     top = facts.one(r"^scylla::client::pager::PagingExecutor::fetch_one_page::\{closure#0\}$")
     n = 0
     for b in closure_family(facts, top):
-        if b.kind != "Closure":
-            continue
-        peq = [c for c in b.calls_to("::ptr_eq")]
-        if not peq:
-            continue
-        dj = dj_of(b, facts)
-        for bb in sorted(b.live_blocks):
-            for j, st in enumerate(b.stmts(bb)):
-                if not (st[0] == "A" and st[1][0] == 0 and not st[1][1]):
-                    continue
-                e = dj.expr_of_rvalue(st[2])
-                for stt in dj.states_before_stmt(bb, j):
-                    if not any(in_set(stt.get(("call", c.bb)), {0}) for c in peq):
-                        continue
-                    n += 1
-                    v = dj.eval_in(stt, e)
-                    r.instance("other-nodes-stay-in-the-plan", v == 1,
-                               "the filter over the load-balancing plan answers %s for a target on a node that is NOT the previous page's coordinator: the plan of pages 2.. shrinks to the coordinator itself, "
-                               "so a page whose coordinator fails is retried on the same node and the stream ends with an error although healthy nodes were available" % ("false" if v == 0 else "an unknown value"), b.stmt_span(st))
-    # a return value produced directly by a call
+        for c in b.calls_to("Iterator::filter"):
+            _, cs, _ = field_slice(b, c.args[0])
+            if not any((x.name or "").endswith("load_balancing::plan::Plan::<'a>::new") or (x.name or "").endswith("Plan::new") or "Plan::<" in (x.name or "") and (x.name or "").endswith("::new") for x in cs):
+                continue
+            sd = b.single_def(c.args[1][1][0]) if c.args[1][0] in ("c", "m") else None
+            for _ in range(4):      # a predicate bound to a name first: `let keep = |..| ..; plan.filter(keep)`
+                if sd and sd[0] == "stmt" and sd[3][0] == "use" and sd[3][1][0] in ("c", "m"):
+                    sd = b.single_def(sd[3][1][1][0])
+            if not (sd and sd[0] == "stmt" and sd[3][0] == "agg" and sd[3][1][0] == "closure"):
+                r.fail("plan-filter-shape", "the predicate filtering the load-balancing plan is not a closure built in place", c.span)
+                n += 1
+                continue
+            pred = facts.body(sd[3][1][1])
+            n += 1
+            vals = bool_returns(facts, pred, lambda call: 0 if (call.name or call.decl or "").endswith("::ptr_eq") else None)
+            r.instance("other-nodes-stay-in-the-plan", vals == {1},
+                       "for a target on a node that is NOT the previous page's coordinator (Arc::ptr_eq false) the filter over the load-balancing plan can answer %s: the plan of pages 2.. "
+                       "loses healthy nodes, so a page whose coordinator fails is retried on the same node and the stream ends with an error" % ("false" if vals == {0} else "true or false (undecided)"), c.span)
     if n == 0:
-        raise AnchorLost("fetch_one_page: no plan filter comparing targets with the stable coordinator (Arc::ptr_eq) found")
+        raise AnchorLost("fetch_one_page: no filter over the load-balancing plan (Plan::new(..).filter(..)) found")
 
 
 def check(ctx):
